@@ -86,7 +86,7 @@ Definition render_options (c : config) : ropts :=
 Section Routes.
   (* the CSS front end (CssParse): inline attribute declarations and the author rules
      of the document's <style> elements *)
-  Variable inline_styles : list (text * text) -> res (list style).
+  Variable inline_styles : list (text * text) -> res (list styledecl).
   Variable doc_rules : list node -> res (list ruleset).
 
   Definition effective_sd (c : config) (doc : list node) : res styledata :=
